@@ -305,4 +305,43 @@ theorem dropWhile_pad (pad : Bytes) (d : Nat) (t : Bytes) (hp : ∀ c ∈ pad, c
 theorem printable_range : ∀ c, c < 127 → ((9 ≤ c ∧ c ≤ 13) ∨ (32 ≤ c ∧ c ≤ 126)) → asciiPrintable.contains c = true := by
   decide
 
+
+/-! ### text files -/
+
+theorem identify_skip_magic4 (lisT : Bytes → LisRes) (datP : Bytes → Bool) (c0 c1 c2 c3 : Nat) (r : Bytes)
+    (h : c0 ≠ 4 ∧ c0 ≠ 208 ∧ c0 ≠ 1 ∧ c0 ≠ 60 ∧ c0 ≠ 37 ∧ c0 ≠ 255) (h3 : c3 ≠ 4 ∧ c3 ≠ 0) :
+    identify lisT datP (c0 :: c1 :: c2 :: c3 :: r) =
+      firstMatch lisT datP (c0 :: c1 :: c2 :: c3 :: r) (tests.filter (fun t => !isMagic t.2.1)) := by
+  obtain ⟨h1, h2, h3', h4, h5, h6⟩ := h
+  obtain ⟨h7, h8⟩ := h3
+  simp [identify, tests, firstMatch, runTest, isMagic, h1, h2, h3', h4, h5, h6, h7, h8]
+
+theorem byteAt_mem (b : Bytes) (i : Nat) (h : i < b.length) : byteAt b i ∈ b := by
+  simp [byteAt, List.getD_eq_getElem?_getD, List.getElem?_eq_getElem h]
+
+theorem rp66v1TifGeneral_fail_next (hd : Bytes) (n : Nat) (h : n ≠ 92) : rp66v1TifGeneral hd n = "" := by
+  unfold rp66v1TifGeneral
+  have : (n != rp66v1LenWithTif) = true := by simp [rp66v1LenWithTif, h]
+  rw [if_pos this]
+
+theorem rp66v1Tif_fail_next (b : Bytes) (h : byteAt b 8 + 2 * byteAt b 9 + 4 * byteAt b 10 + 8 * byteAt b 11 ≠ 92) :
+    rp66v1TifTest b = "" := by
+  unfold rp66v1TifTest
+  by_cases hl : (List.take rp66v1LenWithTif b).length < rp66v1LenWithTif
+  · simp only [hl, if_true]
+  · simp only [hl, if_false]
+    apply rp66v1TifGeneral_fail_next
+    rw [byteAt_take b _ 8 (by decide), byteAt_take b _ 9 (by decide), byteAt_take b _ 10 (by decide), byteAt_take b _ 11 (by decide)]
+    exact h
+
+theorem rp66v1TifR_fail_next (b : Bytes) (h : ((byteAt b 8 * 2 + byteAt b 9) * 4 + byteAt b 10) * 8 + byteAt b 11 ≠ 92) :
+    rp66v1TifRTest b = "" := by
+  unfold rp66v1TifRTest
+  by_cases hl : (List.take rp66v1LenWithTif b).length < rp66v1LenWithTif
+  · simp only [hl, if_true]
+  · simp only [hl, if_false]
+    apply rp66v1TifGeneral_fail_next
+    rw [byteAt_take b _ 8 (by decide), byteAt_take b _ 9 (by decide), byteAt_take b _ 10 (by decide), byteAt_take b _ 11 (by decide)]
+    exact h
+
 end TD.C20
